@@ -62,6 +62,19 @@ def T(t):
                 base().hash_tree_root()
             except Exception:
                 pass
+            try:
+                for fk in list(base.fields().keys()):
+                    base.key_to_static_gindex(fk)
+                    base.navigate_type(fk)
+                b0 = base()
+                b0.to_obj()
+                base.from_obj(b0.to_obj())
+                base.decode_bytes(b0.encode_bytes())
+                list(iter(b0))
+                b0.copy()
+                b0.value_byte_length()
+            except Exception:
+                pass
             r = type("C%d" % _cnt[0], (base,), {"__annotations__": dict(items[k0:])})
         else:
             r = type("C%d" % _cnt[0], (Container,), {"__annotations__": ann})
